@@ -355,6 +355,16 @@ def main(argv=None):
 			print(f'[{prop}] broken: {b["obligation"]}: {b["detail"][:300]}')
 		print(f'VIOLATION property={prop} replay={path} no-failing-input-found')
 
+	# ---- advisory syntactic ties (theories/Ties): reported, never a violation ------------------------
+	ties = st.get('ties')
+	tie_report = None
+	if ties is not None:
+		tie_report = [dict(name=t['name'], checked=bool(ties['compiled'] and t['ok']), axioms=t['axioms']) for t in ties['theorems']]
+		if not ties['compiled'] or not all(t['checked'] for t in tie_report):
+			print(f'[{prop}] NOTE: advisory syntactic tie theories/Ties/T{prop[1:]}.v no longer checks (the text of a translated '
+			      f'Python helper changed or left the translated subset); not an obligation of the property, the behavioural '
+			      f'correspondence decides: {(ties["error"] or "")[:200]}')
+
 	# ---- evidence ----------------------------------------------------------------------------
 	n_thm = len(props['theorems'])
 	n_thm_ok = sum(1 for t in props['theorems'] if props['compiled'] and t['ok'])
@@ -385,6 +395,7 @@ def main(argv=None):
 			streams={k: v for k, v in sorted(ctx.counters.items())},
 			known_findings_hit=[k['id'] for k in ctx.known_hits],
 			broken=ctx.broken[:10],
+			**({'advisory_syntactic_ties': tie_report} if tie_report is not None else {}),
 			**ctx.extra,
 		),
 		assumptions=ctx.assumptions or getattr(mod, 'ASSUMPTIONS', []),
